@@ -1,7 +1,7 @@
 """C18 — utility decorators: differential correspondence between the real decorators (applied with decorator syntax in
 generated .py files, executed next to an undecorated twin) and the Lean interpreter of the translated wrapper bodies,
 plus the independent Lean spec as oracle."""
-import asyncio, contextlib, importlib.util, inspect, itertools, json, os, shutil, sys, tempfile, warnings
+import asyncio, contextlib, importlib.util, inspect, itertools, json, os, random, shutil, sys, tempfile, warnings
 
 RULE = ('exhaustive: every utility decorator x {def, async def} x signature shapes {positional, keyword-only, *args/**kwargs, method, mixed} '
         'x call styles (positional / keyword / mixed / listed-keyword / colliding keywords / arity near-misses) x body outcomes {return, return an '
@@ -28,9 +28,26 @@ RULE = ('exhaustive: every utility decorator x {def, async def} x signature shap
         'Staged decoration (callables that already carry attributes): a counted function called k = 0..5 times, then decorated again with count_calls '
         'directly or through each other decorator in between (count_calls(trace(counted)), count_calls(count_calls(f)), re-decoration after calls, a '
         'num_calls attribute and another __dict__ entry set by hand), every wrapper\'s num_calls entry observed after every call, plus seeded staged stacks.  '
+        'Property members with gaps: every subset of {getter, setter, deleter} of a property of a class under trace_class / timer_class x {read, assign, del} '
+        'alone and in two histories x body outcomes (which accessor body ran is journalled).  One decorator object applied to several callables: every one of '
+        'the 17 decorators (mock(x), trace, rename_kwargs(..), overrides(Base), retry(attempts=2), validate(..), pedantic, the context managers …) applied through ONE '
+        'object to 2 / 3 functions of all def / async def combinations: identity of the results, whose __name__ / __qualname__ / __doc__ / __module__ each shows after ALL '
+        'applications, coroutine-ness, interleaved calls judged per function (own counters).  Generator functions and async generator functions as decorated '
+        'callables (a body that journals every value sent, every exception thrown and GeneratorExit): every decorator x {generator, async generator} x 12 operation scripts '
+        '(iteration to the end and beyond, send, send into a just-started generator, throw of an Exception / BaseException before the start / at a yield / after the end, '
+        'close at each stage, never driven) x {driven directly, through `yield from`} x final outcome {return value, raise}, generators yielding 0..3 objects, calls that do '
+        'not bind, all ordered pairs of the transparent decorators, methods of traced / timed classes, seeded stacks x operation lists; observed: is the object handed out a '
+        'generator of the decorated function\'s own code, what every operation shows, the journal of the body.  Result objects that are awaitable (object with __await__, '
+        'finished Future, pending Task) from plain and coroutine functions under every decorator / pair / class member.  Objects whose __repr__ / __str__ / __eq__ / __ne__ '
+        'raise as positional / keyword argument, as result, as result of other_func, under every decorator x {def, async def} x call style, in pairs with the formatting / '
+        'comparing decorators above and below, as method argument / property value of a traced class, as generator argument, and in 15 % of the seeded stacks.  '
         'non-trivial = at least one call reached a decorator')
 EXHAUSTIVE = {'quick': True, 'thorough': True}
-ASSUMPTIONS = ['argument / result objects have total, side-effect-free __repr__, __str__ and __eq__ (the decorators print and compare them)',
+ASSUMPTIONS = ['__repr__ / __str__ / __eq__ / __ne__ of argument / result objects are side-effect free; they MAY raise (modelled: Traits; the decorators that '
+               'format or compare what passes through them then raise where the undecorated callable does not: findings traceFormatsArgumentsAndResults, '
+               'comparisonsCallUserEq); all objects of a run are of one class, so a comparison runs the method of its left operand',
+               'a class whose metaclass overrides __dir__ (it states its own dir() listing) is outside the specification of `overrides` (unspec): only model = implementation is checked there',
+               'a refusal by require_kwargs whose message cannot be formatted (an argument\'s __repr__ raises) is reported under traceFormatsArgumentsAndResults',
                'ENABLE_PEDANTIC is unset (for_all_methods consults it: C09)',
                'bodies do not suspend (coroutines complete on their first step); event-loop interleaving is out of scope',
                'for require_kwargs WHICH positional calls are refused is C05; C18 claims: a positional call is either refused with PedanticCallWithArgsException '
@@ -40,6 +57,9 @@ ASSUMPTIONS = ['argument / result objects have total, side-effect-free __repr__,
 TRUSTED = ['functools.wraps copies __name__/__qualname__/__doc__/__module__/__dict__ and sets __wrapped__ (CPython); the model takes "carries @wraps(<decorated function>)" as "metadata preserved"',
            'inspect.iscoroutinefunction(f) is true exactly for `async def` functions that are not generators',
            'Python argument binding is modelled (PedVerif.Utility.bind) and exercised against the twin on every case',
+           'the generator protocol (PedVerif.Utility.genStep: generator and async generator objects under next / send / throw / close, `yield from` delegation) and property '
+           'access on instances (propAccess) are environment models of CPython 3.12, compared with the undecorated twin on every generator / property case',
+           'identity of a generator object is observed as "its code object is the decorated function\'s own" (gi_code / ag_code)',
            'the member loop of for_all_methods (getattr / setattr of a plain function) is modelled by hand; the translator only re-reads the facts it relies on',
            'the class description handed to the model for `overrides` is read off the raw `__mro__` / `__dict__` of the generated classes and of their '
            'metaclass (descriptor protocol applied once per entry); attribute lookup on classes (PedVerif.Utility.ClassDesc.dir / getattr / owns) is an '
@@ -73,6 +93,9 @@ SHAPES = {
     'm_classm': ('cls, a, b', "[('cls', cls), ('a', a), ('b', b)]", '(), {}', dict(pos=[8, 2, 3], kwonly=[], defaults=[], varpos=False, varkw=False)),
     'm_classm_star': ('cls, *args, **kwargs', "[('cls', cls)]", 'args, kwargs', dict(pos=[8], kwonly=[], defaults=[], varpos=True, varkw=True)),
     'm_prop': ('self', "[('self', self)]", '(), {}', dict(pos=[1], kwonly=[], defaults=[], varpos=False, varkw=False)),
+    # the second / third function a shared decorator object is applied to: other parameter names (a body event says which function ran)
+    'pos_cd': ('c, d', "[('c', c), ('d', d)]", '(), {}', dict(pos=[4, 5], kwonly=[], defaults=[], varpos=False, varkw=False)),
+    'pos_bd': ('b, d', "[('b', b), ('d', d)]", '(), {}', dict(pos=[3, 5], kwonly=[], defaults=[], varpos=False, varkw=False)),
     # re-entrant calls (recursion / callbacks): a parameter that can carry the callback
     're': ('a, b=None, *, c=None', "[('a', a), ('b', b), ('c', c)]", '(), {}', dict(pos=[2, 3], kwonly=[4], defaults=[3, 4], varpos=False, varkw=False)),
     # callables under require_kwargs: *args + keyword-only (+ **kwargs), and controls without *args; f = no first parameter, m = self, c = cls
@@ -91,12 +114,14 @@ SHAPES = {
 }
 A, B, C3, D4, E5 = 11, 12, 13, 14, 15
 CB_ID = 16          # the callback object of the re-entrant programs
+THROW_EXC, THROW_BASE = 401, 402     # the exception objects a caller throws into a generator (an Exception, a BaseException)
 STYLES = {
     'P2': ([A, B], []), 'K2': ([], [[2, A], [3, B]]), 'M': ([A], [[3, B]]), 'K2r': ([], [[3, B], [2, A]]),
     'RZ': ([], [[6, A], [3, B]]), 'RC': ([], [[6, A], [2, C3], [3, B]]), 'RY': ([], [[2, A], [7, B]]),
     'P1': ([A], []), 'K1': ([], [[2, A]]), 'E': ([], []), 'P3': ([A, B, C3], []),
     'X': ([A, B, C3], [[4, D4], [5, E5]]), 'Kd': ([], [[2, A], [5, E5]]),
     'P2cb': ([A, B], [[4, CB_ID]]), 'K2cb': ([], [[2, A], [3, B], [4, CB_ID]]), 'P1cb': ([A], [[4, CB_ID]]), 'Ecb': ([], [[4, CB_ID]]), 'P3cb': ([A, B, C3], [[4, CB_ID]]),
+    'L2': ([], [[4, A], [5, B]]), 'N2': ([], [[3, A], [5, B]]),
     'P3c': ([A, B, C3], [[4, D4]]), 'P1c': ([A], [[4, D4]]), 'Kc': ([], [[4, D4]]), 'P5': ([A, B, C3, D4, E5], []),
 }
 # require_kwargs forms: which first parameter the shapes have, and the call styles per kind of signature
@@ -119,13 +144,16 @@ MAIN_STYLE = {'pos': 'P2', 'kw': 'K2', 'star': 'M', 'method': 'P2', 'mixed': 'X'
 KW_STYLE = {'pos': 'K2', 'kw': 'K2', 'star': 'K2', 'method': 'K2', 'mixed': 'K2'}
 RENAME_SETS = {'z': [[6, 2]], 'zy': [[6, 2], [7, 3]], 'dup': [[6, 2], [6, 3]], 'ab': [[2, 3]], 'none': [], 'swap': [[2, 3], [3, 2]]}
 OUTCOMES = ['ret', 'retp', 'exc', 'base']
+# result objects that happen to be awaitable (returned by a function that is NOT a coroutine function, or produced by awaiting one): an
+# object with __await__ (equality like every other result object), a finished asyncio.Future, a pending asyncio.Task
+AW_OUTCOMES = ['reta', 'retf', 'rett']
 
 
 def outcome_script(kinds, first_id=100):
     """['ret'|'retp'|'exc'|'base', …] -> script entries for the wire"""
     out = []
     for i, k in enumerate(kinds):
-        if k == 'ret':
+        if k in ('ret', 'reta', 'retf', 'rett'):
             out.append(['ret', first_id + i, first_id + i])          # own equality class
         elif k == 'retp':
             out.append(['ret', first_id + i, PARAM_CLS])              # equal to the decorator parameter, not identical
@@ -274,7 +302,17 @@ def layer(d, **kw):
     return l
 
 
-def mk(layers, flavour, shape, styles, wkinds, okinds=None, other_flavour=None, member=None, mode='ignore', origin=None):
+BAD_KINDS = ['repr', 'str', 'eq', 'ne']
+FORMAT_FINDING, COMPARE_FINDING = 'traceFormatsArgumentsAndResults', 'comparisonsCallUserEq'
+FINDING_OF = {'ReprErr': FORMAT_FINDING, 'StrErr': FORMAT_FINDING, 'EqErr': COMPARE_FINDING, 'NeErr': COMPARE_FINDING}
+
+
+def traits_wire(bad):
+    """{identity: [kinds]} -> [[id, reprRaises, strRaises, eqRaises, neRaises]…]"""
+    return [[int(i)] + [k in ks for k in BAD_KINDS] for i, ks in sorted((bad or {}).items(), key=lambda kv: int(kv[0]))]
+
+
+def mk(layers, flavour, shape, styles, wkinds, okinds=None, other_flavour=None, member=None, mode='ignore', origin=None, bad=None):
     """x: everything the Python side needs; c: what the Lean driver gets (derived from x)"""
     first = next((l for l in layers if l['d'] == 'overrides'), None)
     if first:          # one `Base` per program: every overrides layer of the stack names the same class
@@ -282,6 +320,11 @@ def mk(layers, flavour, shape, styles, wkinds, okinds=None, other_flavour=None, 
     x = {'layers': layers, 'flavour': flavour, 'shape': shape, 'styles': list(styles), 'wkinds': list(wkinds),
          'okinds': list(okinds) if okinds is not None else ['equal'] * (2 * len(wkinds) + 2),
          'other_flavour': other_flavour or flavour, 'member': member, 'mode': mode}
+    if bad:
+        # a Future / Task is no object of the harness' class: it has no methods that could be made to raise
+        bad = {i: ks for i, ks in bad.items() if not (100 <= int(i) < 100 + len(wkinds) and wkinds[int(i) - 100] in ('retf', 'rett'))}
+    if bad:
+        x['bad'] = {str(i): list(ks) for i, ks in bad.items()}
     case = {'m': 'utility', 'c': wire(x), 'x': x}
     if origin:
         case['origin'] = origin
@@ -326,6 +369,8 @@ def wire(x):
          'other': {'coro': x['other_flavour'] == 'async', 'sig': osig, 'script': oscript},
          'layers': layers, 'member': None, 'self': SELF_ID if shape == 'method' else None,
          'calls': [{'pos': STYLES[s][0], 'kw': STYLES[s][1]} for s in x['styles']]}
+    if x.get('bad'):
+        c['traits'] = traits_wire(x['bad'])
     if 'rk' in x:
         outer, inner, twin = rk_binding(x['rk'], x['access'])
         c.update({'self': outer, 'innerSelf': inner, 'twinSelf': twin})
@@ -618,10 +663,14 @@ def random_cases(rng, n):
                         member='target' if rng.random() < 0.85 else 'something_else') for d in names]
         n_calls = rng.choice([1, 2, 3, 5, 8, 13, 20])
         styles = [rng.choice(SHAPE_STYLES[shape] + [MAIN_STYLE[shape], KW_STYLE[shape]] * 3) for _ in range(n_calls)]
-        wk = [rng.choice(OUTCOMES + ['ret']) for _ in range(2 * n_calls + 2)]
+        aw = ['reta'] + ([] if 'does_same_as_function' in names else ['retf', 'rett'])
+        wk = [rng.choice(OUTCOMES + ['ret'] + (aw if rng.random() < 0.3 else [])) for _ in range(2 * n_calls + 2)]
         ok = [rng.choice(['same', 'equal', 'equal', 'equal', 'diff', 'exc']) for _ in range(2 * n_calls + 2)]
+        bad = None
+        if rng.random() < 0.15:
+            bad = {rng.choice([A, B, C3, 100, 101, 300]): [rng.choice(BAD_KINDS)] for _ in range(rng.choice([1, 1, 2]))}
         out.append(mk(layers, rng.choice(['sync', 'async']), shape, styles, wk, ok, other_flavour=rng.choice(['sync', 'async']),
-                      mode=rng.choice(['ignore', 'default', 'error', 'always', 'once'])))
+                      mode=rng.choice(['ignore', 'default', 'error', 'always', 'once']), bad=bad))
     return out
 
 
@@ -671,32 +720,62 @@ def ovr_cases(tier):
 def cases(rng, tier):
     out = attrs_cases() + singles(tier) + members(tier) + pairs(tier) + counter_histories(rng, tier) + ovr_cases(tier)
     out += rk_cases(tier) + staged_cases(rng, tier) + reent_cases(rng, tier)
+    out += prop_cases(rng, tier) + shared_cases(rng, tier) + awaitable_cases(rng, tier) + gen_cases(rng, tier) + bad_cases(rng, tier)
     out += random_cases(rng, 600 if tier == 'quick' else 30000)
     return out
 
 
 def search(rng, tier, near):
-    return random_cases(rng, 2200) + rand_staged(rng, 400) + rand_reent(rng, 400)
+    return random_cases(rng, 2200) + rand_staged(rng, 400) + rand_reent(rng, 400) + rand_gen(rng, 400)
 
 
 # ------------------------------------------------------------------ generated programs
 
-class V:
-    """argument / result objects: equality by class number, identity by object"""
+class ReprErr(Exception):
+    pass
 
-    def __init__(self, oid, cls):
-        self.oid, self.cls = oid, cls
+
+class StrErr(Exception):
+    pass
+
+
+class EqErr(Exception):
+    pass
+
+
+class NeErr(Exception):
+    pass
+
+
+class V:
+    """argument / result objects: equality by class number, identity by object.  `bad`: which of the methods a wrapper may run on the
+    object raise ('repr', 'str', 'eq', 'ne') — every object of a run is of this ONE class, so `a == b` / `a != b` runs the method of the
+    left operand only.  The harness itself never formats or compares them (identities are looked up with `is`)."""
+
+    def __init__(self, oid, cls, bad=()):
+        self.oid, self.cls, self.bad = oid, cls, frozenset(bad)
 
     def __eq__(self, o):
+        if 'eq' in self.bad:
+            raise EqErr(self.oid)
         return isinstance(o, V) and o.cls == self.cls
 
     def __ne__(self, o):
-        return not self.__eq__(o)
+        if 'ne' in self.bad:
+            raise NeErr(self.oid)
+        return not (isinstance(o, V) and o.cls == self.cls)
 
     def __hash__(self):
         return hash(self.cls)
 
     def __repr__(self):
+        if 'repr' in self.bad:
+            raise ReprErr(self.oid)
+        return f'V{self.oid}'
+
+    def __str__(self):
+        if 'str' in self.bad:
+            raise StrErr(self.oid)
         return f'V{self.oid}'
 
 
@@ -706,6 +785,44 @@ class BodyErr(Exception):
 
 class BodyBase(BaseException):
     pass
+
+
+class AwV(V):
+    """a result object that can also be awaited (to something else)"""
+
+    def __await__(self):
+        if False:
+            yield None
+        return V(-self.oid, -self.oid)
+
+
+async def _nap():
+    return V(-1, -1)
+
+
+def install_awaitables(H, loop, wkinds, first_id=100):
+    """the script entries of kind reta / retf / rett denote awaitable objects: put them into the object table before any body runs"""
+    made = []
+    for i, k in enumerate(wkinds):
+        oid = first_id + i
+        if k == 'reta':
+            H.table[oid] = AwV(oid, oid, H.bad.get(oid, ()))
+        elif k == 'retf':
+            f = loop.create_future()
+            f.set_result(V(-oid, -oid))
+            H.table[oid] = f
+        elif k == 'rett':
+            H.table[oid] = loop.create_task(_nap())
+            made.append(H.table[oid])
+    return made
+
+
+def settle_awaitables(loop, made):
+    for t in made:
+        try:
+            loop.run_until_complete(t)
+        except BaseException:
+            pass
 
 
 class Runtime:
@@ -721,14 +838,18 @@ class Runtime:
         self.top = None          # re-entrant programs: the callable under test (decorated or twin)
         self.plan = []           # … and the nested calls invocation i makes: [[(args, kwargs)…]…]
         self.announced = []      # call numbers count_calls printed (only read when the message still has that form)
+        self.bad = {}            # identity -> which methods of that object raise
+        self.pending = []        # asyncio tasks handed out as result objects, to be finished before the loop goes away
+        self.yields = []         # generator programs: the objects the i-th generator yields: [[(id, cls)…]…]
         self.cb = lambda *a, **k: self.top(*a, **k)
         self.reset_objects()
 
     def reset_objects(self):
         self.table = {999999: self.sentinel, PARAM_ID: self.param}
         for i in (A, B, C3, D4, E5):
-            self.table[i] = V(i, i)
+            self.table[i] = V(i, i, self.bad.get(i, ()))
         self.table[CB_ID] = self.cb
+        self.table[THROW_EXC], self.table[THROW_BASE] = BodyErr(THROW_EXC), BodyBase(THROW_BASE)
 
     def oid(self, v):
         if v is None:
@@ -742,7 +863,7 @@ class Runtime:
         """script entry -> the object it denotes (created once per id)"""
         kind, i, extra = entry
         if i not in self.table:
-            self.table[i] = V(i, extra) if kind == 'ret' else (BodyBase(i) if extra else BodyErr(i))
+            self.table[i] = V(i, extra, self.bad.get(i, ())) if kind == 'ret' else (BodyBase(i) if extra else BodyErr(i))
         return self.table[i]
 
     def run(self, callee, named, xpos, xkw):
@@ -765,6 +886,17 @@ class Runtime:
         self.J.append(['body', callee, i, sorted([KEY[n], self.oid(v)] for n, v in named), [self.oid(v) for v in xpos],
                        sorted([KEY.get(k, -1), self.oid(v)] for k, v in xkw.items())])
         return i, (self.plan[i] if i < len(self.plan) else [])
+
+    def gen_enter(self, callee, named, xpos, xkw):
+        """generator bodies, at their first resumption: journal the invocation, hand out the objects to yield"""
+        i, _ = self.enter(callee, named, xpos, xkw)
+        ys = self.yields[i] if i < len(self.yields) else []
+        return i, [self.obj(['ret', e[0], e[1]]) for e in ys]
+
+    def acc(self, slot, named):
+        """property accessors: which accessor runs, then the body"""
+        self.J.append(['acc', slot])
+        return self.run('w', named, (), {})
 
     def leave(self, callee, i):
         sc = self.script[callee]
@@ -816,12 +948,30 @@ def deco_line(l):
     raise ValueError(d)
 
 
-def fn_source(name, shape, flavour, callee, decorators, indent=''):
+def fn_source(name, shape, flavour, callee, decorators, indent='', gen=False, doc='doc of target'):
     params, named, extras, _ = SHAPES[shape]
     lines = [indent + dl for dl in decorators]
     lines.append(f"{indent}{'async ' if flavour == 'async' else ''}def {name}({params}):")
-    lines.append(f'{indent}    """doc of target"""')
-    lines.append(f"{indent}    return H.run({callee!r}, {named}, {extras})")
+    lines.append(f'{indent}    """{doc}"""')
+    if gen:
+        # a generator function (async generator function for `async def`): yields what the script says and notes down everything it receives
+        lines += [indent + l for l in (
+            f"    _i, _ys = H.gen_enter({callee!r}, {named}, {extras})",
+            "    for _y in _ys:",
+            "        try:",
+            "            _got = yield _y",
+            "        except GeneratorExit:",
+            "            H.J.append(['gen', _i, 'closed'])",
+            "            raise",
+            "        except BaseException as _e:",
+            "            H.J.append(['gen', _i, 'thrown', H.oid(_e)])",
+            "            if not isinstance(_e, Exception):",
+            "                raise",
+            "            continue",
+            "        H.J.append(['gen', _i, 'got', H.oid(_got)])",
+            f"    {'' if flavour == 'async' else 'return '}H.leave({callee!r}, _i)")]
+    else:
+        lines.append(f"{indent}    return H.run({callee!r}, {named}, {extras})")
     return '\n'.join(lines) + '\n'
 
 
@@ -829,23 +979,23 @@ def program_source(x):
     shape, flavour = x['shape'], x['flavour']
     src = IMPORTS
     m = x['member']
+    gen = bool(x.get('gen'))
     if m:
         kind = m['kind']
         pre = {'method': [], 'static': ['@staticmethod'], 'classm': ['@classmethod'], 'prop': ['@property']}[kind]
-        src += 'class KT:\n' + fn_source('target', shape, flavour, 'w', pre, '    ')
-        src += f"@{m['cdeco']}\nclass K:\n" + fn_source('target', shape, flavour, 'w', pre, '    ')
+        src += 'class KT:\n' + fn_source('target', shape, flavour, 'w', pre, '    ', gen=gen)
+        src += f"@{m['cdeco']}\nclass K:\n" + fn_source('target', shape, flavour, 'w', pre, '    ', gen=gen)
         return src
     first = next((l for l in x['layers'] if l['d'] == 'overrides'), None)
     src += base_source(*base_of(first)) if first else base_source('plain', 'target')
     src += fn_source('other', shape, x['other_flavour'], 'o', [])
     decos = [deco_line(l) for l in x['layers']]
     if shape == 'method':
-        src += 'class KT(Base):\n' + fn_source('target', shape, flavour, 'w', [], '    ')
-        src += 'class K(Base):\n' + fn_source('target', shape, flavour, 'w', decos, '    ')
+        src += 'class KT(Base):\n' + fn_source('target', shape, flavour, 'w', [], '    ', gen=gen)
+        src += 'class K(Base):\n' + fn_source('target', shape, flavour, 'w', decos, '    ', gen=gen)
     else:
-        src += fn_source('twin', shape, flavour, 'w', [])
-        src = src.replace('def twin(', 'def twin(')   # the twin carries the same docstring but its own name
-        src += fn_source('target', shape, flavour, 'w', decos)
+        src += fn_source('twin', shape, flavour, 'w', [], gen=gen)
+        src += fn_source('target', shape, flavour, 'w', decos, gen=gen)
     return src
 
 
@@ -968,10 +1118,10 @@ async def _drive(x):
 def canon_result(H, r):
     if r is None:
         return ['none']
-    if inspect.iscoroutine(r):
+    i = H.oid(r)
+    if i < 0 and inspect.iscoroutine(r):
         r.close()
         return ['coro']
-    i = H.oid(r)
     return ['obj', i] if i >= 0 else ['obj', -1, type(r).__name__]
 
 
@@ -1002,7 +1152,7 @@ def run_calls(H, loop, fn_for_call, x, counters_of, reset=True):
             with contextlib.redirect_stdout(JournalWriter(H)):
                 try:
                     r = fn_for_call(args, kwargs)
-                    if inspect.isawaitable(r):
+                    if inspect.isawaitable(r) and H.oid(r) < 0:     # what a coroutine function hands out; a RESULT object that is awaitable stays what it is
                         r = loop.run_until_complete(_drive(r))
                     res = canon_result(H, r)
                     r = None
@@ -1113,6 +1263,7 @@ _PENDING = object()
 
 
 def run_reent(progs, H, loop, x):
+    H.bad = {int(i): ks for i, ks in (x.get('bad') or {}).items()}
     H.reset_objects()
     wscript = outcome_script(x['wkinds'])
     H.script = {'w': wscript, 'o': other_script(x['okinds'], wscript)}
@@ -1141,6 +1292,7 @@ def run_reent(progs, H, loop, x):
 
 def run_staged(progs, H, loop, x):
     """decorate, call, decorate the result again, call, …; after every call the `num_calls` entry of every wrapper built so far"""
+    H.bad = {}
     H.reset_objects()
     wscript = outcome_script(x['wkinds'])
     H.script = {'w': wscript, 'o': other_script(x['okinds'], wscript)}
@@ -1190,6 +1342,8 @@ def run_impl(cases):
     try:
         for case in cases:
             x = case['x']
+            settle_awaitables(loop, H.pending)
+            H.pending = []
             if 'attrs' in x:
                 mod, name, exc = progs.load(attrs_source(x['attrs'], x['flavour']))
                 if exc:
@@ -1217,9 +1371,20 @@ def run_impl(cases):
             if 'reent' in x:
                 out.append(run_reent(progs, H, loop, x))
                 continue
+            if 'gen' in x:
+                out.append(run_gen(progs, H, loop, x))
+                continue
+            if 'prop' in x:
+                out.append(run_prop(progs, H, loop, x))
+                continue
+            if 'shared' in x:
+                out.append(run_shared(progs, H, loop, x))
+                continue
+            H.bad = {int(i): ks for i, ks in (x.get('bad') or {}).items()}
             H.reset_objects()
             wscript = outcome_script(x['wkinds'])
             H.script = {'w': wscript, 'o': other_script(x['okinds'], wscript)}
+            H.pending = install_awaitables(H, loop, x['wkinds'])
             for e in H.script['w'] + H.script['o']:
                 H.obj(e)
             mod, name, exc = progs.load(rk_source(x) if 'rk' in x else program_source(x))
@@ -1290,10 +1455,752 @@ def run_impl(cases):
             res['calls'] = run_calls(H, loop, call, x, counters_of)
             out.append(res)
     finally:
+        settle_awaitables(loop, H.pending)
+        H.pending = []
         loop.close()
         progs.close()
     return out
 
+
+# ------------------------------------------------------------------ generator functions / async generator functions as decorated callables
+
+GEN_OPS = {
+    'iter': [['next']] * 4,                                                  # plain iteration, to the end and beyond
+    'send': [['next'], ['send', A], ['send', B], ['next']],
+    'send_first': [['send', A], ['next'], ['send', B], ['send', C3]],        # a value into a just-started generator: TypeError, then on
+    'throw_mid': [['next'], ['throw', THROW_EXC, False], ['send', A], ['next']],
+    'throw_base': [['next'], ['throw', THROW_BASE, True], ['next']],
+    'throw_first': [['throw', THROW_EXC, False], ['next']],
+    'throw_done': [['next'], ['next'], ['next'], ['throw', THROW_EXC, False], ['next']],
+    'close_mid': [['next'], ['close'], ['next'], ['send', A]],
+    'close_first': [['close'], ['next']],
+    'close_done': [['next'], ['next'], ['next'], ['close']],
+    'mixed': [['next'], ['send', A], ['throw', THROW_EXC, False], ['send', B], ['close'], ['throw', THROW_EXC, False]],
+    'none': [],                                                              # the generator object is never driven
+}
+GEN_TRANSPARENT = ['trace', 'timer', 'count_calls', 'deprecated', 'trace_if_returns', 'rename_kwargs', 'require_kwargs']
+GEN_STYLE = {'pos': 'K2', 'kw': 'K2', 'star': 'K2', 'method': 'K2', 'mixed': 'K2', 'm_method': 'P2', 'm_method_star': 'M'}
+
+
+def gen_yields(n_calls, per):
+    """the objects the i-th generator yields: `per[i % len(per)]` fresh objects each"""
+    out, nxt = [], 500
+    for i in range(n_calls + 2):
+        k = per[i % len(per)]
+        out.append([[nxt + j, nxt + j] for j in range(k)])
+        nxt += k
+    return out
+
+
+def mk_gen(layers, flavour, shape, calls, wkinds, per=(2,), drive='direct', member=None, mode='ignore', bad=None):
+    """calls: [(call style, name of an operation list | explicit operation list)]; flavour 'async' = async generator function"""
+    x = {'gen': {'ops': [list(GEN_OPS[o]) if isinstance(o, str) else [list(op) for op in o] for _, o in calls], 'yields': gen_yields(len(calls), list(per)),
+                 'drive': drive if flavour == 'sync' else 'direct'},
+         'layers': [layer(d) if isinstance(d, str) else d for d in layers], 'flavour': flavour, 'shape': shape, 'styles': [st for st, _ in calls],
+         'wkinds': list(wkinds), 'okinds': ['equal'] * (2 * len(calls) + 2), 'other_flavour': 'sync', 'member': member, 'mode': mode}
+    if bad:
+        x['bad'] = {str(i): list(ks) for i, ks in bad.items()}
+    c = wire(x)
+    c['kind'] = 'gen'
+    c['body'] = {'async': flavour == 'async', 'sig': c['body']['sig'], 'script': c['body']['script'], 'yields': x['gen']['yields']}
+    for cj, ops in zip(c['calls'], x['gen']['ops']):
+        cj['ops'] = ops
+    return {'m': 'utility', 'c': c, 'x': x}
+
+
+def gen_cases(rng, tier):
+    out = []
+    for flavour in ('sync', 'async'):
+        drives = ('direct', 'yieldfrom') if flavour == 'sync' else ('direct',)
+        for d in UTIL:
+            shapes = ['method'] if d == 'overrides' else ['pos', 'star']
+            for shape in shapes:
+                for on, _ in GEN_OPS.items():
+                    for drive in drives:
+                        if shape == 'star' and (on not in ('send', 'mixed', 'throw_mid') or drive != 'direct'):
+                            continue
+                        for fin in ('ret', 'exc', 'base'):
+                            if fin == 'base' and on not in ('iter', 'send', 'throw_mid'):
+                                continue
+                            # two calls: two generator objects, the second driven differently
+                            out.append(mk_gen([d], flavour, shape, [(GEN_STYLE[shape], on), (GEN_STYLE[shape], 'send')], [fin, 'ret', 'ret', 'ret'], drive=drive))
+            # generators that yield nothing / once / three times; a call that does not bind; a positional call
+            for per in ((0,), (1,), (3,), (2, 0)):
+                out.append(mk_gen([d], flavour, 'method' if d == 'overrides' else 'pos', [('K2', 'send'), ('K1', 'iter'), ('P2', 'mixed')], ['ret', 'exc', 'ret', 'ret'], per=per))
+        # all ordered pairs of the transparent decorators
+        k = 0
+        for d1 in GEN_TRANSPARENT:
+            for d2 in GEN_TRANSPARENT:
+                k += 1
+                on = list(GEN_OPS)[k % len(GEN_OPS)]
+                out.append(mk_gen([d1, d2], flavour, ('pos', 'kw', 'star')[k % 3], [('K2', on), ('K2', 'mixed')], ['ret', 'exc', 'ret', 'ret'],
+                                  drive=drives[k % len(drives)], mode=('ignore', 'always')[k % 2]))
+        # methods of a class under trace_class / timer_class
+        for cdeco in ('trace_class', 'timer_class'):
+            for shape in ('m_method', 'm_method_star'):
+                for on in GEN_OPS:
+                    for drive in drives:
+                        out.append(mk_gen([], flavour, shape, [(GEN_STYLE[shape], on), (GEN_STYLE[shape], 'send')], ['ret', 'exc', 'ret'], drive=drive,
+                                          member={'kind': 'method', 'access': 'instance', 'cdeco': cdeco}))
+    return out + rand_gen(rng, 150 if tier == 'quick' else 6000)
+
+
+def rand_gen(rng, n):
+    out = []
+    vals = [A, B, C3, D4, E5]
+    for _ in range(n):
+        flavour = rng.choice(['sync', 'async'])
+        shape = rng.choice(['pos', 'kw', 'star', 'method', 'mixed'])
+        pool = [d for d in UTIL if d != 'overrides' or shape == 'method']
+        names = [rng.choice(pool if rng.random() < 0.3 else GEN_TRANSPARENT) for _ in range(rng.choice([1, 2, 2, 3]))]
+        calls = []
+        for _ in range(rng.choice([1, 2, 3])):
+            ops = []
+            for _ in range(rng.randint(0, 7)):
+                r = rng.random()
+                ops.append(['next'] if r < 0.35 else ['send', rng.choice(vals)] if r < 0.7 else ['throw', THROW_EXC, False] if r < 0.82
+                           else ['throw', THROW_BASE, True] if r < 0.88 else ['close'])
+            calls.append((rng.choice(SHAPE_STYLES[shape] + [KW_STYLE[shape]] * 4), ops))
+        out.append(mk_gen([layer(d, renames=rng.choice(list(RENAME_SETS))) for d in names], flavour, shape, calls,
+                          [rng.choice(OUTCOMES) for _ in range(len(calls) + 2)], per=tuple(rng.choice([0, 1, 2, 3]) for _ in range(2)),
+                          drive=rng.choice(['direct', 'yieldfrom']), mode=rng.choice(['ignore', 'always'])))
+    return out
+
+
+def _delegate(g):
+    """`yield from`: forwards next / send / throw / close and hands the return value on"""
+    r = yield from g
+    return r
+
+
+def drive_gen(H, loop, g, ops, how):
+    """drive a generator / async generator object; what every operation shows"""
+    obs = []
+    is_async = inspect.isasyncgen(g)
+    target = _delegate(g) if (how == 'yieldfrom' and not is_async) else g
+    for op in ops:
+        try:
+            if is_async:
+                if op[0] == 'next':
+                    v = loop.run_until_complete(target.__anext__())
+                elif op[0] == 'send':
+                    v = loop.run_until_complete(target.asend(H.table[op[1]] if op[1] else None))
+                elif op[0] == 'throw':
+                    v = loop.run_until_complete(target.athrow(H.table[op[1]]))
+                    if v is None:
+                        obs.append(['nothing'])
+                        continue
+                else:
+                    loop.run_until_complete(target.aclose())
+                    obs.append(['closed'])
+                    continue
+            else:
+                if op[0] == 'next':
+                    v = next(target)
+                elif op[0] == 'send':
+                    v = target.send(H.table[op[1]] if op[1] else None)
+                elif op[0] == 'throw':
+                    v = target.throw(H.table[op[1]])
+                else:
+                    target.close()
+                    obs.append(['closed'])
+                    continue
+            obs.append(['yield', H.oid(v)])
+        except (StopIteration, StopAsyncIteration) as st:
+            obs.append(['stop', H.oid(getattr(st, 'value', None))])
+        except BaseException as e:
+            obs.append(canon_exc(H, e))
+            e = None
+    return obs, target
+
+
+def run_gen_calls(H, loop, fn_for_call, x, counters_of, code):
+    """one history on a generator function: per call the journal of the call and of the drive, the kind of result, what every operation shows"""
+    H.J = []
+    H.inv = {'w': 0, 'o': 0}
+    out, leftovers = [], []
+    for s, ops in zip(x['styles'], x['gen']['ops']):
+        pos, kw = STYLES[s]
+        args = [H.table[i] for i in pos]
+        kwargs = {KEYNAME[k]: H.table[v] for k, v in kw}
+        mark = len(H.J)
+        obs = []
+        with warnings.catch_warnings():
+            warnings.simplefilter(x['mode'])
+            warnings.filterwarnings('ignore', message='coroutine .* was never awaited', category=RuntimeWarning)
+
+            def hook(message, category, filename, lineno, file=None, line=None, H=H):
+                if not (issubclass(category, RuntimeWarning) and 'never awaited' in str(message)):
+                    H.J.append(['warn', category.__name__])
+            warnings.showwarning = hook
+            with contextlib.redirect_stdout(JournalWriter(H)):
+                try:
+                    r = fn_for_call(args, kwargs)
+                    if inspect.isgenerator(r) or inspect.isasyncgen(r):
+                        own = (r.gi_code if inspect.isgenerator(r) else r.ag_code) is code
+                        if inspect.isasyncgen(r) != (x['flavour'] == 'async'):
+                            own = False
+                        # the generator object the decorated function's own body made — or some other generator
+                        res = ['gen'] if own else ['gen', 'foreign']
+                        obs, target = drive_gen(H, loop, r, ops, x['gen']['drive'])
+                        leftovers += [target, r]
+                    else:
+                        if inspect.isawaitable(r) and H.oid(r) < 0:
+                            r = loop.run_until_complete(_drive(r))
+                        res = canon_result(H, r)
+                    r = None
+                except BaseException as e:
+                    res = canon_exc(H, e)
+                    e = None
+        out.append({'evs': H.J[mark:], 'res': res, 'obs': obs, 'counters': counters_of()})
+    keep = len(H.J)
+    for g in leftovers:          # finish what is still suspended, outside the journal
+        try:
+            if inspect.isasyncgen(g):
+                loop.run_until_complete(g.aclose())
+            else:
+                g.close()
+        except BaseException:
+            pass
+    del H.J[keep:]
+    return out
+
+
+def run_gen(progs, H, loop, x):
+    H.bad = {int(i): ks for i, ks in (x.get('bad') or {}).items()}
+    H.reset_objects()
+    wscript = outcome_script(x['wkinds'])
+    H.script = {'w': wscript, 'o': other_script(x['okinds'], wscript)}
+    H.yields = x['gen']['yields']
+    for e in H.script['w'] + H.script['o']:
+        H.obj(e)
+    mod, name, exc = progs.load(program_source(x))
+    shape, m = x['shape'], x['member']
+    res = {'deco': exc}
+    in_class = bool(m) or shape == 'method'
+    if exc and not hasattr(mod, 'KT' if in_class else 'twin'):
+        res['twin'] = None
+        return res
+    if in_class:
+        kt = mod.KT
+        twin_inst = kt()
+        H.table[SELF_ID], H.table[CLS_ID] = twin_inst, kt
+        twin_call = lambda a, k: twin_inst.target(*a, **k)
+        twin_code = kt.__dict__['target'].__code__
+    else:
+        twin_call = lambda a, k: mod.twin(*a, **k)
+        twin_code = mod.twin.__code__
+    res['twin'] = run_gen_calls(H, loop, twin_call, x, lambda: [], twin_code)
+    if exc:
+        return res
+    if in_class:
+        kc = mod.K
+        inst = kc()
+        H.table[SELF_ID], H.table[CLS_ID] = inst, kc
+        f0 = kc.__dict__['target']
+        call = lambda a, k: inst.target(*a, **k)
+        qual = 'K.target'
+    else:
+        f0 = mod.target
+        call = lambda a, k: mod.target(*a, **k)
+        qual = 'target'
+    chain = [f0]
+    while hasattr(chain[-1], '__wrapped__') and len(chain) < 10:
+        chain.append(chain[-1].__wrapped__)
+    wrapping = [l['d'] for l in x['layers'] if l['d'] != 'overrides']
+
+    def counters_of():
+        return [getattr(chain[j], 'num_calls', None) if j < len(chain) else None for j, d in enumerate(wrapping) if d == 'count_calls']
+    res['attrs'] = [getattr(f0, '__name__', None) == 'target', getattr(f0, '__qualname__', None) == qual,
+                    getattr(f0, '__doc__', None) == 'doc of target', getattr(f0, '__module__', None) == name]
+    res['coro'] = inspect.iscoroutinefunction(f0)
+    res['calls'] = run_gen_calls(H, loop, call, x, counters_of, getattr(chain[-1], '__code__', None))
+    H.yields = []
+    return res
+
+
+# ------------------------------------------------------------------ property members with gaps in their accessors (trace_class / timer_class)
+
+PROP_OPS = {'get': [['get']], 'set': [['set', A]], 'del': [['del']], 'all': [['get'], ['set', A], ['del'], ['get']],
+            'rev': [['del'], ['set', B], ['get'], ['set', A], ['del']]}
+
+
+def mk_prop(cdeco, acc, ops, wkinds, bad=None):
+    x = {'prop': {'cdeco': cdeco, 'acc': [bool(a) for a in acc], 'ops': [list(o) for o in ops]}, 'wkinds': list(wkinds), 'flavour': 'sync', 'mode': 'ignore'}
+    if bad:
+        x['bad'] = {str(i): list(ks) for i, ks in bad.items()}
+    c = {'kind': 'prop', 'cdeco': cdeco, 'params': {'param': [PARAM_ID, PARAM_CLS], 'renames': [], 'baseHas': True, 'guard': NO_GUARD},
+         'acc': x['prop']['acc'], 'script': outcome_script(x['wkinds']), 'self': SELF_ID, 'ops': x['prop']['ops'], 'traits': traits_wire(x.get('bad'))}
+    return {'m': 'utility', 'c': c, 'x': x}
+
+
+def prop_cases(rng, tier):
+    """every subset of {getter, setter, deleter} x every operation (alone and in two histories) x body outcomes — a finite space, enumerated"""
+    out = []
+    for cdeco in ('trace_class', 'timer_class'):
+        for acc in itertools.product((True, False), repeat=3):
+            for on, ops in PROP_OPS.items():
+                for wk in (('ret', 'exc', 'base') if len(ops) == 1 else ('ret',)):
+                    out.append(mk_prop(cdeco, acc, ops, [wk] + ['ret', 'exc', 'ret', 'base', 'ret']))
+    return out
+
+
+def prop_source(x):
+    pr = x['prop']
+    g, st, dl = pr['acc']
+
+    def body(ind):
+        src = ''
+        if g:
+            src += f'{ind}@property\n{ind}def target(self):\n{ind}    """doc of target"""\n{ind}    return H.acc(\'fget\', [(\'self\', self)])\n'
+        else:
+            src += f'{ind}target = property()\n'
+        if st:
+            src += f'{ind}@target.setter\n{ind}def target(self, a):\n{ind}    return H.acc(\'fset\', [(\'self\', self), (\'a\', a)])\n'
+        if dl:
+            src += f'{ind}@target.deleter\n{ind}def target(self):\n{ind}    return H.acc(\'fdel\', [(\'self\', self)])\n'
+        return src
+    return IMPORTS + 'class KT:\n' + body('    ') + f"@{pr['cdeco']}\nclass K:\n" + body('    ')
+
+
+def run_prop_ops(H, inst, x):
+    H.J = []
+    H.inv = {'w': 0, 'o': 0}
+    out = []
+    for op in x['prop']['ops']:
+        mark = len(H.J)
+        with contextlib.redirect_stdout(JournalWriter(H)):
+            try:
+                if op[0] == 'get':
+                    res = canon_result(H, inst.target)
+                elif op[0] == 'set':
+                    inst.target = H.table[op[1]]
+                    res = ['none']
+                else:
+                    del inst.target
+                    res = ['none']
+            except BaseException as e:
+                res = canon_exc(H, e)
+                e = None
+        evs = H.J[mark:]
+        ran = [e[1] for e in evs if e and e[0] == 'acc']
+        out.append({'evs': [e for e in evs if not (e and e[0] == 'acc')], 'res': res, 'acc': ran[0] if len(ran) == 1 else (None if not ran else ran)})
+    return out
+
+
+def run_prop(progs, H, loop, x):
+    H.bad = {int(i): ks for i, ks in (x.get('bad') or {}).items()}
+    H.reset_objects()
+    H.script = {'w': outcome_script(x['wkinds']), 'o': []}
+    for e in H.script['w']:
+        H.obj(e)
+    mod, name, exc = progs.load(prop_source(x))
+    res = {'deco': exc}
+    if not hasattr(mod, 'KT'):
+        res['twin'] = None
+        return res
+    ti = mod.KT()
+    H.table[SELF_ID], H.table[CLS_ID] = ti, mod.KT
+    res['twin'] = run_prop_ops(H, ti, x)
+    if exc:
+        return res
+    inst = mod.K()
+    H.table[SELF_ID], H.table[CLS_ID] = inst, mod.K
+    res['ops'] = run_prop_ops(H, inst, x)
+    return res
+
+
+def judge_prop(case, impl, model):
+    x = case['x']
+    pr = x['prop']
+    tag = f"prop:{pr['cdeco']}:" + ''.join(c for c, a in zip('gsd', pr['acc']) if a) + '-/' + '+'.join(o[0] for o in pr['ops'][:3])
+    if 'error' in model:
+        return {'corr': False, 'pfail': None, 'tag': tag, 'why': 'driver: ' + model['error'], 'nontrivial': False}
+    if impl.get('twin') is None or impl.get('deco'):
+        return {'corr': False, 'pfail': f"the class with the property could not be built / decorated: {impl.get('deco')}", 'tag': tag, 'why': 'program failed', 'nontrivial': False}
+    why = []
+
+    def norm(c):
+        return {'evs': collapse([norm_ev(e) for e in c['evs']]), 'res': c['res'][:3], 'acc': c['acc']}
+    ic, mc = [norm(c) for c in impl['ops']], [norm(c) for c in model['model']]
+    if ic != mc:
+        k = next((i for i, (a, b) in enumerate(zip(ic, mc)) if a != b), min(len(ic), len(mc)))
+        why.append(f"operation {k} {pr['ops'][k]}: impl {ic[k]} model {mc[k]}")
+    it, mt = [norm(c) for c in impl['twin']], [norm(c) for c in model['modelTwin']]
+    if it != mt:
+        why.append(f'the undecorated class differs from the property model: impl {it} model {mt}')
+    pfail = None
+    finding = None
+    names = {'fget': 'getter', 'fset': 'setter', 'fdel': 'deleter', None: 'no accessor'}
+    for k, (c, t, sc) in enumerate(zip(ic, it, model['spec'])):
+        if t['res'] != sc['res'] or t['acc'] != sc['acc'] or body_events(t['evs']) != [norm_ev(e) for e in sc['calls']]:
+            why.append(f'operation {k}: the undecorated class differs from the specification of a property: {t} vs {sc}')
+            break
+        what = {'get': 'reading obj.target', 'set': 'obj.target = v', 'del': 'del obj.target'}[pr['ops'][k][0]]
+        if c['acc'] != sc['acc']:
+            pfail = f"operation {k}: {what} ran {names.get(c['acc'], c['acc'])} instead of {names[sc['acc']]} (accessors of the property: {[n for n, a in zip(('getter', 'setter', 'deleter'), pr['acc']) if a]})"
+        elif body_events(c['evs']) != [norm_ev(e) for e in sc['calls']]:
+            pfail = f"operation {k}: {what}: accessor invocations {body_events(c['evs'])} instead of {sc['calls']}"
+        elif c['res'] != sc['res']:
+            pfail = f"operation {k}: {what}: caller saw {c['res']} instead of {sc['res']}"
+        if pfail:
+            if not why:
+                finding = user_method_finding(x, impl['ops'][k])
+            break
+    if x.get('bad'):
+        tag = 'bad:' + tag
+    return {'corr': not why, 'pfail': pfail, 'finding': finding, 'tag': tag, 'nontrivial': any(pr['acc']), 'why': '; '.join(why)}
+
+
+# ------------------------------------------------------------------ one decorator object applied to several callables
+
+SHARED_SHAPES = ['pos', 'pos_cd', 'pos_bd']
+SHARED_KW = {'pos': 'K2', 'pos_cd': 'L2', 'pos_bd': 'N2'}
+MEMBER_KEY.update({'fn0': 118, 'fn1': 119, 'fn2': 120})
+SHARED_BASE = {'mro': [[[118, False, True, True], [119, False, True, True], [120, False, True, True]], []], 'metaMro': [[], []], 'metaGetattr': None, 'dirOverride': None}
+SHARED_DECOS = UTIL + ATTRS_ONLY
+
+
+def mk_shared(d, flavours, calls, wkinds, renames='z', okinds=None, other_flavour='sync', mode='ignore'):
+    """calls: [(index of the function, call style)]"""
+    l = layer(d, renames=renames)
+    x = {'shared': {'flavours': list(flavours), 'calls': [list(cl) for cl in calls]}, 'layers': [l], 'wkinds': list(wkinds),
+         'okinds': list(okinds) if okinds is not None else ['equal'] * (len(wkinds) + 2), 'other_flavour': other_flavour, 'mode': mode, 'flavour': flavours[0]}
+    wscript = outcome_script(x['wkinds'])
+    wl = {'d': d, 'param': [PARAM_ID, PARAM_CLS], 'renames': RENAME_SETS[renames], 'guard': dict(NO_GUARD, isMethodObj=False, notFunction=False)}
+    if d == 'overrides':
+        wl['base'] = SHARED_BASE
+    sig = SHAPES['pos'][3]
+    c = {'kind': 'shared', 'layer': wl, 'script': wscript,
+         'other': {'coro': other_flavour == 'async', 'sig': dict(sig), 'script': other_script(x['okinds'], wscript)},
+         'funcs': [{'coro': fl == 'async', 'sig': SHAPES[SHARED_SHAPES[i]][3], 'fname': MEMBER_KEY[f'fn{i}']} for i, fl in enumerate(flavours)],
+         'calls': [{'fn': i, 'pos': STYLES[st][0], 'kw': STYLES[st][1]} for i, st in calls]}
+    return {'m': 'utility', 'c': c, 'x': x}
+
+
+def shared_cases(rng, tier):
+    """every decorator of the package, ONE decorator object, applied to two / three functions of every combination of kinds"""
+    out = []
+    for d in SHARED_DECOS:
+        combos = [('sync', 'sync'), ('async', 'async'), ('sync', 'async'), ('async', 'sync'), ('sync', 'sync', 'sync'), ('async', 'sync', 'async')]
+        if d in ('safe_contextmanager',):
+            combos = [('sync', 'sync'), ('sync', 'sync', 'sync')]
+        if d in ('safe_async_contextmanager',):
+            combos = [('async', 'async'), ('async', 'async', 'async')]
+        for fl in combos:
+            if d in ATTRS_ONLY:
+                out.append(mk_shared(d, fl, [], []))
+                continue
+            n = len(fl)
+            # interleaved calls: every function called, in both orders, by position and by keyword
+            order = [0, 1, 0, 1] if n == 2 else [2, 0, 1, 2, 0]
+            for kwcall in ((True,) if d == 'require_kwargs' else (False, True)):
+                calls = [(i, SHARED_KW[SHARED_SHAPES[i]] if kwcall else 'P2') for i in order]
+                out.append(mk_shared(d, fl, calls, ['ret', 'retp', 'exc', 'ret', 'base', 'ret']))
+            out.append(mk_shared(d, fl, [], []))
+    return out
+
+
+def shared_fn_source(d, i, flavour, name, doc, callee='w'):
+    a = 'async ' if flavour == 'async' else ''
+    if d == 'pedantic':
+        return f'{a}def {name}(a: int, b: int) -> int:\n    """{doc}"""\n    return a\n'
+    if d in ('validate', 'in_subprocess', 'retry'):
+        return f'{a}def {name}(a, b):\n    """{doc}"""\n    return a\n'
+    if d in ('safe_contextmanager', 'safe_async_contextmanager'):
+        return f'{a}def {name}(a, b):\n    """{doc}"""\n    yield a\n'
+    return fn_source(name, SHARED_SHAPES[i], flavour, callee, [], doc=doc)
+
+
+def shared_deco_expr(l):
+    d = l['d']
+    if d == 'pedantic':
+        return 'pedantic'
+    if d == 'validate':
+        return "validate(Parameter(name='a'), Parameter(name='b'))"
+    if d == 'in_subprocess':
+        return 'in_subprocess'
+    if d == 'retry':
+        return 'retry(attempts=2)'
+    if d in ('safe_contextmanager', 'safe_async_contextmanager'):
+        return d
+    return deco_line(l)[1:]
+
+
+def shared_source(x):
+    sh, l = x['shared'], x['layers'][0]
+    d = l['d']
+    n = len(sh['flavours'])
+    src = IMPORTS + 'class Base:\n' + ''.join(f'    def fn{i}(self, *args, **kwargs):\n        return 1\n' for i in range(3))
+    src += fn_source('other', 'pos', x['other_flavour'], 'o', [])
+    for i, fl in enumerate(sh['flavours']):
+        src += shared_fn_source(d, i, fl, f'twin{i}', f'doc of fn{i}')
+        src += shared_fn_source(d, i, fl, f'fn{i}', f'doc of fn{i}')
+    src += 'RAW = [' + ', '.join(f'fn{i}' for i in range(n)) + ']\n'
+    src += f'DECO = {shared_deco_expr(l)}\n'           # ONE decorator object
+    src += ('RESULTS, DECO_EXC = [], []\nfor _f in RAW:\n    try:\n        RESULTS.append(DECO(_f))\n        DECO_EXC.append(None)\n'
+            '    except BaseException as _e:\n        RESULTS.append(None)\n        DECO_EXC.append(type(_e).__name__)\n')
+    return src
+
+
+def run_shared(progs, H, loop, x):
+    sh, l = x['shared'], x['layers'][0]
+    H.bad = {int(i): ks for i, ks in (x.get('bad') or {}).items()}
+    H.reset_objects()
+    wscript = outcome_script(x['wkinds'])
+    H.script = {'w': wscript, 'o': other_script(x['okinds'], wscript)}
+    for e in H.script['w'] + H.script['o']:
+        H.obj(e)
+    mod, name, exc = progs.load(shared_source(x))
+    if exc or not hasattr(mod, 'RESULTS'):
+        return {'deco': exc or 'no results', 'twin': None}
+    n = len(sh['flavours'])
+    R = mod.RESULTS
+    res = {'deco': None, 'decoExc': list(mod.DECO_EXC)}
+    # which object each result is (index of the first result that is the same object), and whose metadata it shows now that all are decorated
+    res['objs'] = [next(j for j in range(n) if R[j] is R[i]) if R[i] is not None else None for i in range(n)]
+
+    def shows(r):
+        hits = [j for j in range(n) if getattr(r, '__name__', None) == f'fn{j}' and getattr(r, '__qualname__', None) == f'fn{j}'
+                and getattr(r, '__doc__', None) == f'doc of fn{j}' and getattr(r, '__module__', None) == name]
+        return hits[0] if len(hits) == 1 else None
+    res['shows'] = [shows(r) if r is not None else None for r in R]
+    res['attrs'] = [[getattr(r, '__name__', None) == f'fn{i}', getattr(r, '__qualname__', None) == f'fn{i}', getattr(r, '__doc__', None) == f'doc of fn{i}',
+                     getattr(r, '__module__', None) == name] if r is not None else None for i, r in enumerate(R)]
+    res['coro'] = [inspect.iscoroutinefunction(r) if r is not None else None for r in R]
+    calls = sh['calls']
+
+    def history(fns, counters):
+        H.J = []
+        H.inv = {'w': 0, 'o': 0}
+        out = []
+        for i, st in calls:
+            f = fns[i]
+            out += run_calls(H, loop, lambda a, k: f(*a, **k), dict(x, styles=[st]), lambda: counters(i), reset=False)
+        return out
+    res['twin'] = history([getattr(mod, f'twin{i}') for i in range(n)], lambda i: [])
+    if all(r is not None for r in R):
+        res['calls'] = history(R, lambda i: [R[i].num_calls] if (l['d'] == 'count_calls' and hasattr(R[i], 'num_calls')) else [])
+    else:
+        res['calls'] = None
+    return res
+
+
+def judge_shared(case, impl, model):
+    x = case['x']
+    sh, d = x['shared'], x['layers'][0]['d']
+    tag = f"shared:{d}/" + '+'.join(f[0] for f in sh['flavours']) + ('/calls' if sh['calls'] else '/attrs')
+    if 'error' in model:
+        return {'corr': False, 'pfail': None, 'tag': tag, 'why': 'driver: ' + model['error'], 'nontrivial': False}
+    if impl.get('twin') is None:
+        return {'corr': False, 'pfail': f"building the program with the shared decorator object raised {impl.get('deco')}", 'tag': tag, 'why': 'program failed', 'nontrivial': False}
+    m, s = model['model'], model['spec']
+    n = len(sh['flavours'])
+    why = []
+    mdeco = [e[2] if e else None for e in m['deco']]
+    sdeco = [e[2] if e else None for e in s['deco']]
+    if impl['decoExc'] != mdeco:
+        why.append(f"decoration: impl {impl['decoExc']} model {mdeco}")
+    if impl['objs'] != m['objs']:
+        why.append(f"which wrapper object each application handed out: impl {impl['objs']} model {m['objs']}")
+    mshows = [sw if ok else None for sw, ok in zip(m['shows'], m['meta'])]
+    if impl['shows'] != mshows:
+        why.append(f"whose metadata each result shows: impl {impl['shows']} model {mshows}")
+    if impl['coro'] != m['coro']:
+        why.append(f"iscoroutinefunction: impl {impl['coro']} model {m['coro']}")
+    it, mt = [norm_call(c) for c in impl['twin']], [norm_call(c) for c in model['modelTwin']]
+    if it != mt:
+        why.append(f'undecorated twins differ from the body model: impl {it} model {mt}')
+    if impl['calls'] is not None:
+        ic, mc = [norm_call(c) for c in impl['calls']], [norm_call(c) for c in m['calls']]
+        if ic != mc:
+            k = next((i for i, (a, b) in enumerate(zip(ic, mc)) if a != b), min(len(ic), len(mc)))
+            why.append(f"call {k} (of fn{sh['calls'][k][0]}): impl {ic[k] if k < len(ic) else None} model {mc[k] if k < len(mc) else None}")
+    pfail = None
+    an = ['__name__', '__qualname__', '__doc__', '__module__']
+    if impl['decoExc'] != sdeco:
+        pfail = f"applying the one {d} decorator object to fn0..fn{n - 1} raised {impl['decoExc']}, expected {sdeco}"
+    elif impl['objs'] != s['objs']:
+        dup = next(i for i in range(n) if impl['objs'][i] != i)
+        pfail = (f"deco = {shared_deco_expr(x['layers'][0])}; the results of deco(fn{impl['objs'][dup]}) and deco(fn{dup}) are ONE object "
+                 f"(every application must hand out a callable of its own)")
+    elif impl['shows'] != s['shows']:
+        bad = next(i for i in range(n) if impl['shows'][i] != i)
+        pfail = (f"deco = {shared_deco_expr(x['layers'][0])}; after deco was applied to fn0..fn{n - 1}, deco(fn{bad}) does not preserve " +
+                 ', '.join(a for a, ok in zip(an, impl['attrs'][bad]) if not ok) + (f" (it shows those of fn{impl['shows'][bad]})" if impl['shows'][bad] is not None else ''))
+    elif any(sc is not None and ic != sc for ic, sc in zip(impl['coro'], s['coro'])):
+        pfail = f"coroutine-ness not kept: iscoroutinefunction of the results is {impl['coro']}, the functions are {sh['flavours']}"
+    elif s['calls'] is not None and impl['calls'] is not None:
+        for k, (ic, sc) in enumerate(zip(impl['calls'], s['calls'])):
+            if sc['unspec']:
+                break
+            ic = norm_call(ic)
+            if sc.get('mayReject') and ic['res'] == REJECTED and not body_events(ic['evs']):
+                break
+            who = f"call {k} (deco(fn{sh['calls'][k][0]}) after deco was applied to all functions)"
+            if body_events(ic['evs']) != [norm_ev(e) for e in sc['calls']]:
+                pfail = f"{who}: body invocations {body_events(ic['evs'])} instead of {sc['calls']}"
+            elif ic['res'] != sc['res']:
+                pfail = f"{who}: caller saw {ic['res']} instead of {sc['res']}"
+            elif sum(1 for e in ic['evs'] if e == ['warn', 'DeprecationWarning']) != sc['warns']:
+                pfail = f"{who}: {sum(1 for e in ic['evs'] if e == ['warn', 'DeprecationWarning'])} DeprecationWarning(s) instead of {sc['warns']}"
+            elif ic['counters'] != sc['counters']:
+                pfail = f"{who}: num_calls {ic['counters']} instead of {sc['counters']} (every decorated function counts its own calls)"
+            if pfail:
+                break
+    return {'corr': not why, 'pfail': pfail, 'finding': None, 'tag': tag, 'nontrivial': True, 'why': '; '.join(why)}
+
+
+def judge_gen(case, impl, model):
+    x = case['x']
+    names = [l['d'] for l in x['layers']] or [x['member']['cdeco'] + ':method']
+    tag = 'gen:' + ('+'.join(names) if len(names) < 3 else f'depth{len(names)}') + f"/{'asyncgen' if x['flavour'] == 'async' else 'gen'}/{x['gen']['drive']}"
+    if 'error' in model:
+        return {'corr': False, 'pfail': None, 'tag': tag, 'why': 'driver: ' + model['error'], 'nontrivial': False}
+    if impl.get('twin') is None:
+        return {'corr': False, 'pfail': f"importing the generated program raised {impl['deco']} before the undecorated twin was defined",
+                'tag': tag, 'why': 'program import failed', 'nontrivial': False}
+    m, s = model['model'], model['spec']
+    why = []
+    fail_k = None
+
+    def norm(c):
+        return dict(norm_call(c), res=c['res'], obs=[o[:3] for o in c['obs']])
+    it, mt = [norm(c) for c in impl['twin']], [norm(c) for c in model['modelTwin']]
+    if it != mt:
+        k = next((i for i, (a, b) in enumerate(zip(it, mt)) if a != b), 0)
+        why.append(f'the undecorated generator function differs from the generator model at call {k}: impl {it[k]} model {mt[k]}')
+    for k, (ic, sc) in enumerate(zip(it, s['twin'])):
+        if ic['res'] != sc['res'] or ic['obs'] != sc['obs'] or body_events(ic['evs']) != [norm_ev(e) for e in sc['calls']]:
+            why.append(f'the undecorated generator function differs from its specification at call {k}: {ic} vs {sc}')
+            break
+    md = m['deco'][2] if m['deco'] else None
+    sd = s['deco'][2] if s['deco'] else None
+    if impl['deco'] != md:
+        why.append(f"decoration: impl {impl['deco']} model {md}")
+    pfail = None
+    if impl['deco'] != sd:
+        pfail = f"applying the decorators raised {impl['deco']}, expected {sd}"
+    if impl['deco'] is None and md is None:
+        ic, mc = [norm(c) for c in impl['calls']], [norm(c) for c in m['calls']]
+        if ic != mc:
+            k = next((i for i, (a, b) in enumerate(zip(ic, mc)) if a != b), min(len(ic), len(mc)))
+            why.append(f'call {k}: impl {ic[k] if k < len(ic) else None} model {mc[k] if k < len(mc) else None}')
+        if all(impl['attrs']) != m['meta']:
+            why.append(f"metadata: impl {impl['attrs']} model {m['meta']}")
+        if impl['coro'] != m['coro']:
+            why.append(f"iscoroutinefunction: impl {impl['coro']} model {m['coro']}")
+    if impl['deco'] is None and sd is None and pfail is None:
+        kind = 'async generator' if x['flavour'] == 'async' else 'generator'
+        if not all(impl['attrs']):
+            an = ['__name__', '__qualname__', '__doc__', '__module__']
+            pfail = 'metadata not preserved: ' + ', '.join(n for n, ok in zip(an, impl['attrs']) if not ok)
+        else:
+            for k, (ic, sc) in enumerate(zip(impl['calls'], s['calls'])):
+                if sc['unspec']:
+                    break
+                ic = norm(ic)
+                if sc.get('mayReject') and ic['res'] == REJECTED and not body_events(ic['evs']):
+                    break
+                ops = x['gen']['ops'][k]
+                if ic['res'][:1] != sc['res'][:1] or (ic['res'] != sc['res'] and sc['res'][:1] != ['gen']):
+                    pfail = f"call {k}: the caller got {ic['res']} instead of {sc['res']}"
+                elif ic['obs'] != sc['obs']:
+                    j = next((i for i, (a, b) in enumerate(zip(ic['obs'], sc['obs'])) if a != b), min(len(ic['obs']), len(sc['obs'])))
+                    pfail = (f"call {k}: driving the {kind} with {ops} ({x['gen']['drive']}): operation {j} {ops[j] if j < len(ops) else ''} showed "
+                             f"{ic['obs'][j] if j < len(ic['obs']) else None} instead of {sc['obs'][j] if j < len(sc['obs']) else None}")
+                elif body_events(ic['evs']) != [norm_ev(e) for e in sc['calls']]:
+                    pfail = (f"call {k}: driving the {kind} with {ops}: its body noted down {body_events(ic['evs'])} instead of {sc['calls']} "
+                             f"(send values / thrown exceptions / close must reach the decorated {kind})")
+                elif sum(1 for e in ic['evs'] if e == ['warn', 'DeprecationWarning']) != sc['warns']:
+                    pfail = f"call {k}: {sum(1 for e in ic['evs'] if e == ['warn', 'DeprecationWarning'])} DeprecationWarning(s) instead of {sc['warns']}"
+                elif ic['counters'] != sc['counters']:
+                    pfail = f"call {k}: num_calls {ic['counters']} instead of {sc['counters']}"
+                elif ic['res'] != sc['res']:
+                    pfail = (f"call {k}: the caller got {ic['res']} instead of {sc['res']}: a {kind} object that is not the one the decorated {kind} function made "
+                             f"(same result object out)")
+                if pfail:
+                    fail_k = k
+                    break
+    corr = not why
+    finding = user_method_finding(x, impl['calls'][fail_k]) if (pfail and corr and fail_k is not None) else None
+    if x.get('bad'):
+        tag = 'bad:' + tag
+    return {'corr': corr, 'pfail': pfail, 'finding': finding, 'tag': tag, 'nontrivial': bool(x['styles']) and impl['deco'] is None, 'why': '; '.join(why)}
+
+
+def awaitable_cases(rng, tier):
+    """functions whose RESULT OBJECT is awaitable (an object with __await__, a Future, a Task): the caller must get that very object"""
+    out = []
+    for d in UTIL:
+        for flavour in ('sync', 'async'):
+            for shape in (('method',) if d == 'overrides' else ('pos', 'star')):
+                for wk in AW_OUTCOMES:
+                    oks = ('same', 'diff') if wk != 'reta' else ('same', 'equal', 'diff')
+                    for ok in (oks if d == 'does_same_as_function' else ('equal',)):
+                        out.append(mk([layer(d)], flavour, shape, [KW_STYLE[shape], KW_STYLE[shape]], [wk, 'ret', wk, 'ret'], [ok, ok, ok, ok], other_flavour=flavour))
+    k = 0
+    for d1 in GEN_TRANSPARENT:
+        for d2 in GEN_TRANSPARENT:
+            k += 1
+            out.append(mk([layer(d1), layer(d2)], ('sync', 'async')[k % 2], 'pos', ['K2', 'K2', 'K2'], [AW_OUTCOMES[k % 3], AW_OUTCOMES[(k + 1) % 3], 'ret', 'ret', 'ret', 'ret']))
+    for cdeco in ('trace_class', 'timer_class'):
+        for flavour in ('sync', 'async'):
+            for wk in AW_OUTCOMES:
+                out.append(mk([], flavour, 'm_method', ['P2', 'K2'], [wk, wk, 'ret'], member={'kind': 'method', 'access': 'instance', 'cdeco': cdeco}))
+                if flavour == 'sync':
+                    out.append(mk([], flavour, 'm_prop', ['E'], [wk, 'ret'], member={'kind': 'prop', 'access': 'instance', 'cdeco': cdeco}))
+    return out
+
+
+
+# ------------------------------------------------------------------ objects whose __repr__ / __str__ / __eq__ / __ne__ raise
+
+def bad_cases(rng, tier):
+    """arguments and results whose `__repr__` / `__str__` / `__eq__` / `__ne__` raise, under every decorator (those that format or compare
+    what passes through them, and the others as controls), alone, in pairs, as methods / properties of a traced class, as generator arguments"""
+    out = []
+    # identity -> role: positional / keyword argument, first result of the decorated function, first result of other_func
+    objs = {'argA': A, 'argB': B, 'res': 100, 'other': 300}
+    for d in UTIL:
+        for flavour in ('sync', 'async'):
+            shape = 'method' if d == 'overrides' else 'pos'
+            for who, oid in objs.items():
+                if who == 'other' and d != 'does_same_as_function':
+                    continue
+                for kind in BAD_KINDS:
+                    for style in ('P2', 'K2'):
+                        for wk in ('ret', 'retp'):
+                            if wk == 'retp' and d not in ('trace_if_returns', 'does_same_as_function'):
+                                continue
+                            for ok in (('equal', 'diff') if d == 'does_same_as_function' else ('equal',)):
+                                out.append(mk([layer(d)], flavour, shape, [style, style], [wk, 'ret', 'ret', 'ret'], [ok, 'equal', 'equal', 'equal'],
+                                              other_flavour=flavour, bad={oid: [kind]}))
+    # stacks of two: a formatting / comparing decorator above and below every other one
+    k = 0
+    for d1 in ('trace', 'trace_if_returns', 'does_same_as_function'):
+        for d2 in UTIL:
+            if d2 == 'overrides':
+                continue
+            for order in ((d1, d2), (d2, d1)):
+                k += 1
+                oid = (A, B, 100, 100)[k % 4]
+                out.append(mk([layer(order[0]), layer(order[1])], ('sync', 'async')[k % 2], 'pos', ['K2', 'K2'], [('ret', 'retp')[k % 2], 'ret', 'ret', 'ret'],
+                              bad={oid: [BAD_KINDS[k % 4], BAD_KINDS[(k // 4) % 4]]}))
+    # members of a class under trace_class / timer_class: an argument / the result of a method, the result of a property getter
+    for cdeco in ('trace_class', 'timer_class'):
+        for kind in ('repr', 'str', 'eq'):
+            for oid in (A, 100):
+                out.append(mk([], 'sync', 'm_method', ['P2', 'K2'], ['ret', 'ret', 'ret'], member={'kind': 'method', 'access': 'instance', 'cdeco': cdeco}, bad={oid: [kind]}))
+            out.append(mk([], 'sync', 'm_prop', ['E', 'E'], ['ret', 'ret', 'ret'], member={'kind': 'prop', 'access': 'instance', 'cdeco': cdeco}, bad={100: [kind]}))
+            # … and the value assigned through a property setter
+            out.append(mk_prop(cdeco, (True, True, True), [['set', A], ['get'], ['del']], ['ret', 'ret', 'ret'], bad={A: [kind]}))
+    # the arguments of a generator function
+    for d in GEN_TRANSPARENT:
+        for flavour in ('sync', 'async'):
+            for kind in ('repr', 'eq'):
+                out.append(mk_gen([d], flavour, 'pos', [('K2', 'send'), ('P2', 'iter')], ['ret', 'ret', 'ret'], bad={A: [kind]}))
+    return out
 
 # ------------------------------------------------------------------ verdict
 
@@ -1317,7 +2224,7 @@ def norm_call(c):
 
 
 def body_events(evs):
-    return [norm_ev(e) for e in evs if e and e[0] == 'body' and e[1] == 'w']
+    return [norm_ev(e) for e in evs if e and ((e[0] == 'body' and e[1] == 'w') or e[0] == 'gen')]
 
 
 REJECTED = ['exc', 'lib', 'PedanticCallWithArgsException']
@@ -1441,8 +2348,32 @@ def judge_staged(case, impl, model):
     return {'corr': corr, 'pfail': pfail, 'finding': None, 'tag': tag, 'nontrivial': any(st['styles'] for st in x['staged']), 'why': '; '.join(why)}
 
 
+FORMATTERS = {'trace', 'trace_if_returns', 'does_same_as_function', 'require_kwargs'}      # format arguments / results (require_kwargs: in its refusal)
+COMPARERS = {'trace_if_returns', 'does_same_as_function'}                                 # compare the result with ==, !=
+
+
+def user_method_finding(x, call):
+    """a call of a case with objects whose methods raise came out as the exception of such a method, and a decorator that is recorded
+    to format / compare what passes through it is in the stack: which finding that is (any other decorator doing so is a violation)"""
+    if not x.get('bad') or not call:
+        return None
+    r = call['res']
+    f = FINDING_OF.get(r[2]) if r[:2] == ['exc', 'lib'] and len(r) > 2 else None
+    names = {l['d'] for l in x.get('layers', [])}
+    m = x.get('member') or x.get('prop')
+    if m and m.get('cdeco') == 'trace_class':
+        names.add('trace')
+    if f == FORMAT_FINDING and names & FORMATTERS:
+        return f
+    if f == COMPARE_FINDING and names & COMPARERS:
+        return f
+    return None
+
+
 def judge(case, impl, model):
     x = case['x']
+    if 'error' in model and ('gen' in x or 'prop' in x or 'shared' in x):
+        return {'corr': False, 'pfail': None, 'tag': 'driver-error', 'why': 'driver: ' + str(model['error']), 'nontrivial': False}
     m, s = model['model'], model['spec']
     if 'attrs' in x:
         tag = f"attrs/{x['attrs']}/{x['flavour']}"
@@ -1471,12 +2402,15 @@ def judge(case, impl, model):
             why.append(f"decoration: impl {impl['deco']} model {md}")
         if [impl['obs']] != model['classObs']:
             why.append(f"class lookup [in dir, hasattr, in __dict__, getattr is None, truthy, callable]: real {impl['obs']} model {model['classObs']}")
-        if model['specHasName'] != [impl['obs'][0]]:
+        deco_unspec = bool(s.get('decoUnspec'))
+        if not deco_unspec and model['specHasName'] != [impl['obs'][0]]:
             why.append(f"specification's listing of the class ({model['specHasName']}) differs from dir() ({impl['obs'][0]})")
         if impl['deco'] is None and md is None and (impl['coro'] != m['coro'] or not m['meta']):
             why.append(f"identity layer: impl coro {impl['coro']}, model coro {m['coro']} meta {m['meta']}")
         pfail = None
-        if impl['deco'] != sd:
+        if deco_unspec:
+            tag += ':unspec'
+        elif impl['deco'] != sd:
             pfail = f"@overrides(Base) on `def {o['fname']}` raised {impl['deco']}, expected {sd} (base class variant {o['base']}, member under test `{o['member']}`)"
         elif impl['deco'] is None and not impl['same']:
             pfail = 'overrides did not hand back the decorated function itself'
@@ -1486,6 +2420,12 @@ def judge(case, impl, model):
         return judge_staged(case, impl, model)
     if 'reent' in x:
         return judge_reent(case, impl, model)
+    if 'gen' in x:
+        return judge_gen(case, impl, model)
+    if 'prop' in x:
+        return judge_prop(case, impl, model)
+    if 'shared' in x:
+        return judge_shared(case, impl, model)
     names = [l['d'] for l in x['layers']] or [x['member']['cdeco'] + ':' + x['member']['kind'] + ':' + x['member']['access']]
     tag = '+'.join(names) if len(names) < 3 else f'depth{len(names)}'
     if 'rk' in x:
@@ -1495,6 +2435,7 @@ def judge(case, impl, model):
     tag += f"/{x['flavour']}/{x['shape']}"
     why = []
     pfail = None
+    fail_k = None
     if impl.get('twin') is None:
         return {'corr': False, 'pfail': f"importing the generated program raised {impl['deco']} before the undecorated twin was defined",
                 'tag': tag, 'why': 'program import failed', 'nontrivial': False}
@@ -1513,8 +2454,11 @@ def judge(case, impl, model):
         why.append(f"decoration: impl {impl['deco']} model {md}")
     if 'obs' in impl and any(o != impl['obs'] for o in model['classObs']):
         why.append(f"class lookup [in dir, hasattr, in __dict__, getattr is None, truthy, callable]: real {impl['obs']} model {model['classObs']}")
-    if 'obs' in impl and any(h != impl['obs'][0] for h in model['specHasName']):
+    deco_unspec = bool(s.get('decoUnspec'))      # the class named by an `overrides` layer states its own dir() listing: not specified
+    if 'obs' in impl and not deco_unspec and any(h != impl['obs'][0] for h in model['specHasName']):
         why.append(f"specification's listing of the class ({model['specHasName']}) differs from dir() ({impl['obs'][0]})")
+    if deco_unspec:
+        sd = impl['deco']
     if impl['deco'] != sd:
         pfail = f"applying the decorators raised {impl['deco']}, expected {sd}"
     if impl['deco'] is None and md is None:
@@ -1540,7 +2484,10 @@ def judge(case, impl, model):
                 ic = norm_call(ic)
                 if sc.get('mayReject') and ic['res'] == REJECTED and not body_events(ic['evs']):
                     break       # refused by require_kwargs before anything underneath ran (which calls are refused: C05); the history is not followed further
-                if body_events(ic['evs']) != [norm_ev(e) for e in sc['calls']]:
+                fail_k = k
+                if sc.get('mayReject') and ic['res'] == ['exc', 'lib', 'ReprErr'] and not body_events(ic['evs']) and x.get('bad'):
+                    pfail = f"call {k}: the refusal of the positional call raised the exception of an argument's __repr__ instead of PedanticCallWithArgsException"
+                elif body_events(ic['evs']) != [norm_ev(e) for e in sc['calls']]:
                     pfail = f"call {k}: body invocations {body_events(ic['evs'])} instead of {sc['calls']}"
                 elif ic['res'] != sc['res']:
                     pfail = f"call {k}: caller saw {ic['res']} instead of {sc['res']}"
@@ -1552,8 +2499,41 @@ def judge(case, impl, model):
                     break
     corr = not why
     finding = model.get('region') if (pfail and corr and model.get('region')) else None
+    if pfail and corr and not finding and fail_k is not None:
+        finding = user_method_finding(x, impl['calls'][fail_k])
+    if x.get('bad'):
+        tag = 'bad:' + tag
     return {'corr': corr, 'pfail': pfail, 'finding': finding, 'tag': tag, 'nontrivial': bool(x['styles']) and impl['deco'] is None,
             'why': '; '.join(why)}
+
+
+def shrink(c, judge_cases):
+    """a generator case that fails on the identity of the generator object alone: look for the behavioural consequence on the same program
+    (values sent, exceptions thrown, the return value) and report that input instead, when there is one"""
+    x = c.get('x', {})
+    if x.get('bad'):
+        # the failing input involves objects whose __repr__ / __eq__ … raise — inputs of that kind also fail (as recorded findings) on the
+        # unchanged tree: prefer a failing input without them, so that the replay shows what is NEW (one more pass over the generated cases)
+        cand = [k for k in cases(random.Random(17), 'quick') if not k['x'].get('bad')]
+        fails = [r for r in judge_cases(cand) if r[3]['pfail'] and not r[3]['finding']]
+        if not fails:
+            more = [k for k in search(random.Random(99991), 'quick', []) if not k['x'].get('bad')]
+            fails = [r for r in judge_cases(more) if r[3]['pfail'] and not r[3]['finding']]
+        if fails:
+            best = min(fails, key=lambda r: len(json.dumps(r[0], default=str)))
+            return shrink(best[0], judge_cases) or best
+        return None
+    if 'gen' not in x:
+        return None
+    first = judge_cases([c])[0]
+    if not first[3]['pfail'] or 'not the one the decorated' not in first[3]['pfail']:
+        return None
+    for on in ('send', 'mixed', 'throw_mid', 'iter'):
+        cand = mk_gen(x['layers'], x['flavour'], x['shape'], [(x['styles'][0], on)], x['wkinds'][:1] + ['ret'], drive=x['gen']['drive'], member=x['member'], mode=x['mode'])
+        r = judge_cases([cand])[0]
+        if r[3]['pfail'] and 'not the one the decorated' not in r[3]['pfail']:
+            return r
+    return first
 
 
 def extra_coverage(results):
@@ -1569,6 +2549,9 @@ def extra_coverage(results):
         elif 'staged' in x:
             progs.add(json.dumps([x['staged'], x['flavour'], x['preset']], sort_keys=True))
             calls += sum(len(st['styles']) for st in x['staged'])
+        elif 'prop' in x or 'shared' in x:
+            progs.add(json.dumps(x, sort_keys=True))
+            calls += len(x['prop']['ops']) if 'prop' in x else len(x['shared']['calls'])
         elif 'attrs' not in x:
             progs.add(json.dumps([x['layers'], x['flavour'], x['shape'], x['member'], x['other_flavour'], x.get('rk'), x.get('access')], sort_keys=True))
             calls += len(x['styles'])
